@@ -187,6 +187,11 @@ class CHECK(Check):
                         data.append(K())
                 f = FC(data)
                 buf = (io.BytesIO() if binary else io.StringIO()) if case["buffer"] else None
+                realfile = case["buffer"] and (len(case["behs"]) + (1 if binary else 0)) % 2 == 0
+                if realfile:
+                    # the caller-owned destination is a file object the caller opened (opened before the recorder starts, so it is
+                    # not counted as opened by the framework): the framework must leave it open, positioned after what it wrote
+                    buf = open(os.path.join(TMP, "caller.dat"), "w+b" if binary else "w+")
                 with Recorder() as rec:
                     try:
                         f.write(buf if case["buffer"] else path)
@@ -198,7 +203,12 @@ class CHECK(Check):
                     out["buf_closed"] = buf.closed
                     if not buf.closed:
                         out["buf_pos"] = buf.tell()
-                        v = buf.getvalue()
+                        if realfile:
+                            buf.seek(0)
+                            v = buf.read()
+                            buf.close()
+                        else:
+                            v = buf.getvalue()
                         out["output"] = v.decode("latin-1") if binary else v
                 else:
                     with open(path, "rb") as fh:
